@@ -156,6 +156,12 @@ func corpus() []corpusEntry {
 		{"F-108a unknown map", cty.UnknownVal(cty.Map(cty.Bool)), obj("a?", tD, "b?", tD, "c?", tS)},
 		{"F-108a unknown list of maps", cty.UnknownVal(cty.List(cty.Map(cty.Bool))), m.ListOf(obj("a?", tD))},
 		{"F-108a empty list of maps", cty.ListValEmpty(cty.Map(cty.Bool)), m.ListOf(obj("a?", tD))},
+		// --- F-108c: offered as safe but not as unsafe (unification in unsafe mode fails where safe mode succeeds)
+		{"F-108c tuple(list(bool), tuple(number), tuple(dynamic)) -> list(dynamic)", cty.NullVal(cty.Tuple([]cty.Type{cty.List(cty.Bool), cty.Tuple([]cty.Type{cty.Number}), cty.Tuple([]cty.Type{cty.DynamicPseudoType})})), m.ListOf(tD)},
+		{"F-108c known value", tv(lv(cty.True), tv(nv(1)), tv(cty.DynamicVal)), m.ListOf(tD)},
+		{"F-108c -> set(dynamic)", tv(lv(cty.True), tv(nv(1)), tv(cty.DynamicVal)), m.SetOf(tD)},
+		{"F-108c object -> map(dynamic)", ov("a", lv(cty.True), "b", tv(nv(1)), "c", tv(cty.DynamicVal)), m.MapOf(tD)},
+		{"F-108c seed-7 witness", cty.NullVal(cty.Tuple([]cty.Type{cty.Tuple([]cty.Type{cty.Number}), cty.Tuple([]cty.Type{cty.DynamicPseudoType, cty.DynamicPseudoType}), cty.List(cty.Bool)})), m.ListOf(tD)},
 		{"list -> tuple (docs chart: unsafe)", lv(sv("a")), m.TupleOf(tS)},
 		{"set -> tuple (docs chart: unsafe)", setv(sv("a")), m.TupleOf(tS)},
 		// --- sets
